@@ -26,7 +26,7 @@ VARIABLES q,      \* operational: client id |-> sequence of queued copies [tag, 
 ovars == <<q, npid>>
 allvars == <<bvars, q, npid>>
 
-Conf == [mode |-> ModeC, qq0 |-> QQ0, maxinflight |-> 100, sessexpiry |-> 100, srvrecvmax |-> 100, srvaliasmax |-> 10, srvmaxpkt |-> 1000000]
+Conf == [mode |-> ModeC, qq0 |-> QQ0, maxinflight |-> 100, sessexpiry |-> 100, srvrecvmax |-> 100, srvaliasmax |-> 10, srvmaxpkt |-> 1000000, msgexpiry |-> 0, maxqueued |-> 1000]
 
 Numbering == CHOOSE f \in [CIDs -> 1..Cardinality(CIDs)] : \A a, b \in CIDs : a # b => f[a] # f[b]
 N(c) == Numbering[c]
@@ -112,7 +112,7 @@ DoUnsubscribe(c, f) ==
 
 DoPublish(c, t, qos, retain, empty) ==
   LET m == [topic |-> t.topic, lv |-> t.lv, sys |-> t.sys, qos |-> qos, retain |-> retain, empty |-> empty,
-            tag |-> ctr.pub + 1, pid |-> 0, dup |-> FALSE, alias |-> 0, notopic |-> FALSE, size |-> 10, fsize |-> 10] IN
+            tag |-> ctr.pub + 1, pid |-> 0, dup |-> FALSE, alias |-> 0, notopic |-> FALSE, size |-> 10, fsize |-> 10, msgexp |-> 0, ms |-> 0] IN
   /\ Up(N(c))
   /\ ctr.pub < MaxPubs
   /\ Publication(c, m) /\ RetainUpdate(m)
@@ -121,7 +121,7 @@ DoPublish(c, t, qos, retain, empty) ==
 
 DoApiPublish(t, qos, retain) ==
   LET m == [topic |-> t.topic, lv |-> t.lv, sys |-> t.sys, qos |-> qos, retain |-> retain, empty |-> FALSE,
-            tag |-> ctr.pub + 1, pid |-> 0, dup |-> FALSE, alias |-> 0, notopic |-> FALSE, size |-> 10, fsize |-> 10] IN
+            tag |-> ctr.pub + 1, pid |-> 0, dup |-> FALSE, alias |-> 0, notopic |-> FALSE, size |-> 10, fsize |-> 10, msgexp |-> 0, ms |-> 0] IN
   /\ ctr.pub < MaxPubs
   /\ Publication(API, m)
   /\ q' \in OpPublish(API, m)
@@ -131,7 +131,7 @@ DoApiPublish(t, qos, retain) ==
 HeadPkt(c) == LET h == Head(q[c]) IN
   [topic |-> h.topic, tag |-> h.tag, qos |-> h.qos, retain |-> h.retain, dup |-> FALSE,
    pid |-> IF h.qos = 0 THEN 0 ELSE npid[c],
-   ids |-> IF conn[N(c)].ver = 5 THEN h.ids ELSE <<>>, size |-> 10, alias |-> 0]
+   ids |-> IF conn[N(c)].ver = 5 THEN h.ids ELSE <<>>, size |-> 10, alias |-> 0, msgexp |-> 0 - 1, ms |-> 0]
 
 \* refinement mapping: the obligation(s) the head copy of c's queue is meant to discharge
 TargetOwed(c) == LET h == Head(q[c]) IN
@@ -186,7 +186,7 @@ HeadExplained == \A c \in CIDs : (Up(N(c)) /\ q[c] # <<>>) =>
 
 \* when every queue is empty nothing is owed any more (nothing was lost) - and nothing extra was queued
 DrainedMeansQuiet == (\A c \in CIDs : q[c] = <<>>) =>
-                        /\ \A c \in DOMAIN sess : Online(c) => Dischargeable(c) = {}
+                        /\ \A c \in DOMAIN sess : Online(c) => Dischargeable(c, 0) = {}
                         /\ gowed = {}
 
 OBound == ctr.oid <= MaxSubOps
